@@ -157,6 +157,7 @@ def validate_traces(ctx: Ctx, spec: str, cfg: str, traces: list[dict], name: str
     Returns {"accepted": n, "rejected": {tid: {"at": l, "clauses": [...]}}, "states": .., "generated": ..}."""
     accepted = 0
     rejected: dict[int, dict] = {}
+    notes: dict[int, list] = {}      # <<"NOTE", tid, l, clause>>: clauses that are reported without blocking the trace
     states = generated = 0
     wall = 0.0
     for ci in range(0, len(traces), chunk):
@@ -177,6 +178,9 @@ def validate_traces(ctx: Ctx, spec: str, cfg: str, traces: list[dict], name: str
         mism: dict[int, list] = {}
         for _, tid, l, clause in parse_printt_tuples(res["out"], "MISMATCH"):
             mism.setdefault(tid, []).append((l, clause))
+        for _, tid, l, clause in parse_printt_tuples(res["out"], "NOTE"):
+            if (l, clause) not in notes.setdefault(tid, []):
+                notes[tid].append((l, clause))
         for _, tid, reached, need in verdicts:
             if reached == need:
                 accepted += 1
@@ -189,7 +193,7 @@ def validate_traces(ctx: Ctx, spec: str, cfg: str, traces: list[dict], name: str
                         seen.add(c)
                         ordered.append(c)
                 rejected[tid] = {"at": reached, "need": need, "clauses": ordered}
-    return {"accepted": accepted, "rejected": rejected, "states": states, "generated": generated, "wall": wall}
+    return {"accepted": accepted, "rejected": rejected, "states": states, "generated": generated, "wall": wall, "notes": notes}
 
 
 # --------------------------------------------------------------------------- rendering helpers
